@@ -159,6 +159,126 @@ class Prov:
             return {("agg", bb, idx, tuple(proj))}
         return {("unknown", k, bb, idx)}
 
+    # ------------------------------------------------------------------ flow-sensitive variant
+    def _def_sites(self, l):
+        """All definition sites of local l: (bb, pos, kind, payload); pos = stmt index, or
+        len(stmts) for the terminator (call destination)."""
+        out = []
+        for bb, idx, dproj, rv in self.defs.get(l, []):
+            out.append((bb, idx, "assign", (dproj, rv)))
+        for bb, dproj in self.calldefs.get(l, []):
+            out.append((bb, len(self.body.stmts(bb)), "call", dproj))
+        return out
+
+    def reaching(self, l, bb, pos):
+        """Definition sites of local l that reach program point (bb, pos) (before executing pos).
+        A call's destination is defined on the edge to its target, i.e. it reaches the target block."""
+        sites = self._def_sites(l)
+        full = [s for s in sites if not _strip(s[3][0] if s[2] == "assign" else s[3])]
+        by_block = {}
+        for s in full:
+            by_block.setdefault(s[0], []).append(s)
+        for v in by_block.values():
+            v.sort(key=lambda s: s[1])
+        # within the same block, before pos
+        here = [s for s in by_block.get(bb, []) if s[1] < pos]
+        if here:
+            return [here[-1]]
+        out = []
+        seen = set()
+        work = list(self.body.pred(bb))
+        while work:
+            b = work.pop()
+            if b in seen:
+                continue
+            seen.add(b)
+            ds = by_block.get(b, [])
+            if ds:
+                out.append(ds[-1])
+                continue
+            work.extend(self.body.pred(b))
+        return out
+
+    def origins_at(self, x, bb, pos, _stack=None):
+        """Like origins(), but multiply-defined locals are resolved by reaching definitions at (bb, pos)."""
+        if x is None:
+            return set()
+        if "k" in x and x["k"] == "const":
+            return {("const", x["s"])}
+        place = x["place"] if "k" in x else x
+        return self._place_at(place["l"], _strip(place["p"]), bb, pos, _stack or set())
+
+    def _place_at(self, l, proj, bb, pos, stack):
+        sites = self._def_sites(l)
+        nfull = len([s for s in sites if not _strip(s[3][0] if s[2] == "assign" else s[3])])
+        if nfull <= 1 and len(sites) == nfull:
+            # single assignment: the flow-insensitive answer is exact, but its operands may be multi-def
+            if not sites:
+                return self.place_origins(l, proj)
+            s = sites[0]
+            return self._site_origins(s, proj, stack)
+        key = (l, proj, bb, pos)
+        if key in stack:
+            return set()
+        stack = stack | {key}
+        out = set()
+        if 1 <= l <= self.body.arg_count:
+            # parameter value reaches if some path from entry has no def
+            rs = self.reaching(l, bb, pos)
+            # conservative: include the parameter itself
+            out.add(("arg", l, proj))
+        for s in self.reaching(l, bb, pos):
+            out |= self._site_origins(s, proj, stack)
+        return out
+
+    def _site_origins(self, s, proj, stack):
+        sbb, spos, kind, payload = s
+        if kind == "assign":
+            dproj, rv = payload
+            return self._rv_origins_at(rv, proj, sbb, spos, stack)
+        c = self.body.call_at[sbb]
+        if self._is_look_through(c) and c.args:
+            out = self._with_proj(self.origins_at(c.args[0], sbb, spos, stack), proj)
+            out.add(("via", c.name, sbb))
+            return out
+        return {("call", sbb, tuple(proj))}
+
+    def _rv_origins_at(self, rv, proj, bb, idx, stack):
+        k = rv["k"]
+        if k == "use":
+            return self._with_proj(self.origins_at(rv["op"], bb, idx, stack), proj)
+        if k in ("ref", "rawptr"):
+            return self._place_at(rv["place"]["l"], _strip(rv["place"]["p"]) + tuple(proj), bb, idx, stack)
+        if k == "cast":
+            out = self._with_proj(self.origins_at(rv["op"], bb, idx, stack), proj)
+            out.add(("op", "cast:" + rv["cast"] + ":" + rv["ty"], bb, idx))
+            return out
+        if k == "binop":
+            out = self.origins_at(rv["a"], bb, idx, stack) | self.origins_at(rv["b"], bb, idx, stack)
+            out.add(("op", "binop:" + rv["op"], bb, idx))
+            return out
+        if k == "unop":
+            out = set(self.origins_at(rv["a"], bb, idx, stack))
+            out.add(("op", "unop:" + rv["op"], bb, idx))
+            return out
+        if k == "discr":
+            out = self._place_at(rv["place"]["l"], _strip(rv["place"]["p"]), bb, idx, stack)
+            out.add(("op", "discr", bb, idx))
+            return out
+        if k == "agg" and proj:
+            p = [x for x in proj]
+            while p and p[0].startswith("dc"):
+                p.pop(0)
+            if p and p[0].startswith("f") and p[0][1:].isdigit():
+                fi = int(p[0][1:])
+                if fi < len(rv["ops"]):
+                    return self._with_proj(self.origins_at(rv["ops"][fi], bb, idx, stack), tuple(p[1:]))
+        return self._rv_origins(rv, proj, bb, idx)
+
+    def call_arg_origins(self, c, i):
+        """Flow-sensitive origins of argument i of call c (evaluated at the call)."""
+        return self.origins_at(c.args[i], c.bb, len(self.body.stmts(c.bb)))
+
     # ------------------------------------------------------------------ helpers
     def agg_at(self, bb, idx):
         return self.body.stmts(bb)[idx]["rv"]
